@@ -42,18 +42,16 @@ Definition c13_ok (pc : pgcase) : bool := c13_full (pg_obs_checks pc).
 (* Classification of the failing steps of a case.
    class 1 = K-C13-stickymulti: a hygiene/recovery demand fails at a step at or after the first step
      inside the guard (a single operation issued after some Start had succeeded and outside an
-     explicit transaction);
-   class 2 = K-C13-trfetch: the fault-is-reported demand fails at a Get whose row fetch on the
-     translated key failed;
-   both only if the real code behaved exactly as the faithful model predicts. class 0 = unknown. *)
+     explicit transaction), and the real code behaved exactly as the faithful model predicts.
+   class 0 = unknown (any failure of the fault-is-reported demand is unknown: the model satisfies
+     it on every history, C13_fault_reports_error). *)
 Definition step_classes (k : mcheck) : list N :=
-  (if k_fault k then [] else [if k_trf k then 2 else 0])
+  (if k_fault k then [] else [0])
   ++ (if k_hyg k && k_rec k then [] else [if k_hit k then 1 else 0]).
 Definition mem_n (x : N) (l : list N) : bool := existsb (N.eqb x) l.
 Definition pg_classes (pc : pgcase) : list N :=
   let cl := flat_map step_classes (pg_obs_checks pc) in
-  if mem_n 0 cl || negb (pg_corr_ok pc) then [0]
-  else (if mem_n 1 cl then [1] else []) ++ (if mem_n 2 cl then [2] else []).
+  if mem_n 0 cl || negb (pg_corr_ok pc) then [0] else [1].
 
 Definition pg_violations (cs : list pgcase) : list (N * N) :=
   flat_map (fun i => map (fun cl => (i, cl))
